@@ -267,6 +267,7 @@ PROPS = {
         level_note="Process-level behaviour (exit status, that exactly one JSON object is written, parsing of the input file, how the constant "
                    "is derived by the Gambit reader) is NOT decided: clap / serde / gambit-parser code is abstracted. Game::solve is assumed to succeed.",
         verus=[U("c16_main_slice", ["C15.V.main.own_payoffs", "C15.V.output.zero_probability_actions_omitted", "C16.V.main.prints_what_the_options_select"]),
+               U("c15_gambit_terminal", ["C15.V.gambit.terminal_payoff"]),
                U("lib_plumbing", ["C13.V.as_named.pairs_tables", "C01.V.get_info.pairs_tables"]),
                U("c13_action_iter_predicates", ["C13.V.action_iter.next_lists_positive"])],
         kani_functions=[],
@@ -283,6 +284,7 @@ PROPS = {
         level_note="Input route and format detection (file / stdin, explicit / auto), output destination, and 'a JSON and a Gambit encoding of "
                    "the same game give the same solution' are NOT decided (reader code abstracted); validity of the printed profile is C05 / C18.",
         verus=[U("c16_main_slice", ["C16.V.main.prints_what_the_options_select", "C16.V.discount.into_params"]),
+               U("c15_gambit_terminal", ["C15.V.gambit.terminal_payoff (a Gambit leaf gets the zero-sum payoff the JSON encoding of the same game states)"]),
                U("c18_truncate_whole", ["C18.V.truncate.whole"]), U("c18_truncate_sums_to_one", ["C18.V.truncate.sums_to_one (what is printed after clipping is a valid profile)"])],
         kani_functions=[],
         trusted_base=["uninterpreted float semantics", "the library calls of main() as uninterpreted functions of all their arguments"],
